@@ -88,7 +88,15 @@ class PathView:
             if sol.check(*small) == z3.sat or sol.check() == z3.sat:
                 m = sol.model()
                 sizes = [m.eval(l, model_completion=True).as_long() for l in lens]
-        return {'handler': self.handler, 'labels': list(self.labels), 'chunk_sizes': sizes}
+        req = {'handler': self.handler, 'labels': list(self.labels), 'chunk_sizes': sizes}
+        if self.stops_reading_early():
+            req['tail_chunk'] = 2
+        return req
+
+    def stops_reading_early(self):
+        """an upload handed to the library although the body stream was never seen to end"""
+        up = any(e[0] in ('Server::add_version', 'Server::add_snapshot') for e in self.server_effects())
+        return up and not any(l == 'body stream ends' for l in self.labels)
 
     def predicted(self):
         stored = None
@@ -396,6 +404,7 @@ def check_c06(res, rep):
                         exp = ['chunk%d' % i for i in range(pv.p.nchunks) if nonempty('chunk%d' % i)]
                         okb = got == exp
                     rep.check('c06: the bytes handed to the library are the body chunks concatenated in arrival order, nothing dropped or reordered', okb, pv)
+                    rep.check('c06: the body stream is read to its end before anything is handed to the library (an empty chunk does not end the upload)', not pv.stops_reading_early(), pv)
                     rep.wit('c06.w: three-chunk body reaches the library', pv.p.nchunks == 3)
 
 
